@@ -625,7 +625,8 @@ func TestC13(t *testing.T) {
 		"over 3 fresh packages x variables x,y x functions f,g, values are unique tokens; after EVERY step every name is read from inside every package (boundp/value, fboundp/call) and as p:name and p::name " +
 		"from common-lisp-user and compared with a model that recomputes visibility from the use/export graph (own definition, else exported definition of a directly used package, else unbound; " +
 		"two-hop visibility, two used packages exporting the same name and CL name-conflict situations are don't-care or outside the generated domain). " +
-		"Non-trivial: some package resolved a name to another package's definition and a later unuse/unexport/makunbound/fmakunbound changed that resolution. Distinct by history.")
+		"Non-trivial: some package resolved a name to another package's definition and a later unuse/unexport/makunbound/fmakunbound changed that resolution. Distinct by history. " +
+		"Sub-property import: a name imported with Package.Import (Go extension interface) keeps resolving to the owner's current definition through every sequence of 4 use/unuse/export/unexport/redefinition steps (non-trivial: the sequence contains an unuse or unexport).")
 	h.Assume("the reference model internal/refpkg (about 250 lines, recomputes everything from the graph on every query)")
 	h.Assume("steps and probes are Lisp text evaluated through slip.ReadString/Eval; in-package is used to move between packages; packages are removed with slip.RemovePackage after each history and *features* / CL's user list are reset by the harness")
 
